@@ -28,7 +28,7 @@ GENERIC = ", ".join("%s: %d" % (CT[t], i + 1) for i, t in enumerate(GEN_ORDER)) 
 SUFFIX = {"int": "", "uint": "U", "long": "L", "ulong": "UL", "llong": "LL", "ullong": "ULL"}
 LITBITS = {"int": 32, "long": 64, "llong": 64}
 DEVS = ["LogicalReturnsOperand", "BoolCastTruncates", "FloatToUnsignedRejectsNeg", "FloatCondNotFolded",
-        "UnevaluatedOperandFolded", "NoDivisionGuard", "CondSameTypeNoPromotion"]
+        "UnevaluatedOperandFolded", "NoDivisionGuard", "CondSameTypeNoPromotion", "BareAddressMinusRejected"]
 ICE_CONTEXTS = ("array", "enum", "case", "casedup", "bitfield", "alignas", "sa_eq", "sa_ne")
 
 
@@ -75,29 +75,78 @@ def literal(t, v):
     return flt_literal(t, v) if t in ("float", "double") else int_literal(t, as_int(t, v))
 
 
-def render(e, params=None):
-    """C text of an expression; with params (a list) every leaf becomes a parameter p<i> and is recorded"""
+def enum_name(x):
+    return "EC_%s%d" % ("m" if x < 0 else "", abs(x))
+
+
+def render(e, params=None, pre=None):
+    """C text of an expression; with params (a list) every literal operand becomes a parameter p<i> and is
+    recorded; pre (a list) collects the declarations the text needs (enum constants, offsetof structs, arrays)"""
     k = e["k"]
+    if k == "leaf":
+        ty = CT[e["ty"]]
+        if e["src"] == "sizeof":
+            return "sizeof(%s)" % ty
+        if e["src"] == "alignof":
+            return "_Alignof(%s)" % ty
+        if e["src"] == "offsetof":
+            if pre is not None:
+                pre.append("struct OS_%s { char c; %s m; };" % (e["ty"], ty))
+            return "__builtin_offsetof(struct OS_%s, m)" % e["ty"]
+        x = as_int(e["t"], e["v"])
+        if pre is not None:
+            pre.append("enum { %s = %s };" % (enum_name(x), int_literal("int", x)))
+        return enum_name(x)
+    if k == "num":
+        x = u64(e["v"])
+        suf = e["suf"].upper() if x & 1 else e["suf"]
+        return ("%d%s" if e["b"] == 10 else "0%o%s" if e["b"] == 8 else "0x%x%s") % (x, suf)
+    if k == "sym":
+        return "arr_%s" % e["et"]
+    if k == "idx":
+        return "&arr_%s[%s]" % (e["et"], render(e["a"], params, pre))
+    if k == "padd":
+        pp, cc = render(e["p"], params, pre), render(e["c"], params, pre)
+        return "(%s + %s)" % (cc, pp) if e["sw"] else "(%s %s %s)" % (pp, e["op"], cc)
     if k == "lit":
         if params is None:
             return literal(e["t"], e["v"])
         params.append(e)
         return "p%d" % (len(params) - 1)
     if k == "cast":
-        return "((%s)%s)" % (CT[e["t"]], render(e["a"], params))
+        return "((%s)%s)" % (CT[e["t"]], render(e["a"], params, pre))
     if k == "un":
-        return "(%s%s)" % (e["op"], render(e["a"], params))
+        return "(%s%s)" % (e["op"], render(e["a"], params, pre))
     if k == "bin":
-        return "(%s %s %s)" % (render(e["l"], params), e["op"], render(e["r"], params))
+        return "(%s %s %s)" % (render(e["l"], params, pre), e["op"], render(e["r"], params, pre))
     if k == "cond":
-        return "(%s ? %s : %s)" % (render(e["c"], params), render(e["a"], params), render(e["b"], params))
+        return "(%s ? %s : %s)" % (render(e["c"], params, pre), render(e["a"], params, pre), render(e["b"], params, pre))
     raise vlib.MachineryError("bad expression node %r" % (e,))
+
+
+def set_elem(e, et):
+    """address expressions: tell every sym/idx node which array it names"""
+    if e["k"] in ("sym", "idx"):
+        e["et"] = et
+    for f in ("p",):
+        if f in e and isinstance(e[f], dict):
+            set_elem(e[f], et)
 
 
 def shape(e):
     k = e["k"]
     if k == "lit":
         return e["t"]
+    if k == "leaf":
+        return "%s(%s)" % (e["src"], e["ty"])
+    if k == "num":
+        return "num%d%s" % (e["b"], e["suf"])
+    if k == "sym":
+        return "arr"
+    if k == "idx":
+        return "&arr[%s]" % shape(e["a"])
+    if k == "padd":
+        return "(%s%s%s)" % (shape(e["p"]), e["op"], shape(e["c"]))
     if k == "cast":
         return "(%s)%s" % (e["t"], shape(e["a"]))
     if k == "un":
@@ -109,8 +158,14 @@ def shape(e):
 
 def ops_of(e):
     k = e["k"]
-    if k == "lit":
+    if k in ("lit", "sym"):
         return []
+    if k in ("leaf", "num"):
+        return [k]
+    if k == "idx":
+        return ["&[]"] + ops_of(e["a"])
+    if k == "padd":
+        return ["p" + e["op"]] + ops_of(e["p"]) + ops_of(e["c"])
     if k == "cast":
         return ["cast"] + ops_of(e["a"])
     if k == "un":
@@ -151,6 +206,11 @@ def is_intk(r):
 
 def project(ctx, c, which):
     """expected observation of context ctx for case c under which in {'s' (ConstEval), 'm' (FoldModel)}"""
+    if ctx in ("addr", "addr_thread"):
+        r = c[which]
+        if r["st"] == "ok":
+            return ("reloc", "arr_%s" % c["et"], u64(r["v"]))
+        return {"trap": CRASH, "error": REJECT}.get(r["st"], ANY)
     if ctx in ("static", "thread"):
         r = c["s"] if which == "s" else c["ma"]
         return basic(r) or (("data", image(r)) if r["c"] else REJECT)
@@ -201,6 +261,8 @@ def project(ctx, c, which):
 
 
 def devs_of(ctx, c):
+    if ctx in ("addr", "addr_thread"):
+        return sorted(c["m"]["dv"])
     key = {"static": "ma", "thread": "ma", "generic": "m", "enum": "m", "case": "m", "casedup": "m", "sa_ne": "mne",
            "condsel": "msel"}.get(ctx)
     if key is None:
@@ -216,7 +278,16 @@ def devs_of(ctx, c):
 def prepare(c, i):
     s = c["s"]
     c["i"] = i
-    c["E"] = render(c["e"])
+    pre = []
+    if c["f"] == "addr":
+        set_elem(c["e"], c["et"])
+        pre.append("%s arr_%s[%d];" % (CT[c["et"]], c["et"], c["an"]))
+        c["E"] = render(c["e"], None, pre)
+        c["pre"] = pre
+        c["ice"] = True
+        return c
+    c["E"] = render(c["e"], None, pre)
+    c["pre"] = pre
     c["T"] = CT[s["t"]]
     c["isint"] = s["t"] not in ("float", "double")
     if s["st"] == "ok":
@@ -227,7 +298,19 @@ def prepare(c, i):
     return c
 
 
+def prelude(cs):
+    seen, out = set(), []
+    for c in cs:
+        for ln in c["pre"]:
+            if ln not in seen:
+                seen.add(ln)
+                out.append(ln)
+    return "".join(x + "\n" for x in out)
+
+
 def contexts_of(c):
+    if c["f"] == "addr":
+        return ["addr", "addr_thread"]
     ctxs = ["static", "thread", "array", "sa_eq", "sa_ne", "condsel", "generic"]
     if c["isint"]:
         ctxs += ["enum", "case", "casedup", "bitfield", "alignas"]
@@ -236,7 +319,12 @@ def contexts_of(c):
 
 def decl(ctx, c):
     """C text of context ctx for case c (names carry the case index)"""
-    i, E, T = c["i"], c["E"], c["T"]
+    i, E = c["i"], c["E"]
+    if ctx == "addr":
+        return "%s *q%d = %s;" % (CT[c["et"]], i, E)
+    if ctx == "addr_thread":
+        return "_Thread_local %s *u%d = %s;" % (CT[c["et"]], i, E)
+    T = c["T"]
     V = c.get("V")
     if ctx == "static":
         return "%s v%d = %s;" % (T, i, E)
@@ -267,7 +355,7 @@ def decl(ctx, c):
     raise vlib.MachineryError(ctx)
 
 
-NAME = {"static": "v", "thread": "t", "array": "a", "enum": "e", "bitfield": "b", "alignas": "l", "condsel": "s", "generic": "g"}
+NAME = {"addr": "q", "addr_thread": "u", "static": "v", "thread": "t", "array": "a", "enum": "e", "bitfield": "b", "alignas": "l", "condsel": "s", "generic": "g"}
 
 
 def observe(ctx, c, rc, mod, err):
@@ -282,6 +370,10 @@ def observe(ctx, c, rc, mod, err):
     if d is None:
         return ("missing",)
     img, rel = ilparse.data_image(d)
+    if ctx in ("addr", "addr_thread"):
+        if d["thread"] != (ctx == "addr_thread") or len(rel) != 1 or len(img) != 8:
+            return ("bad-data", len(img), len(rel))
+        return ("reloc", rel[0][2], rel[0][3] % (1 << 64))
     if rel:
         return ("reloc",)
     if ctx == "static":
@@ -368,16 +460,19 @@ def run_cases(ctx, runner, cases, tag, batch=40):
     for c in cases:
         if c["s"]["st"] != "ok":
             continue
-        deviating = any(c[k]["dv"] for k in ("m", "ma", "meq", "mne", "msel")) or c["mt"] != c["s"]["t"]
+        if c["f"] == "addr":
+            deviating = bool(c["m"]["dv"]) or c["m"]["st"] != "ok"
+        else:
+            deviating = any(c[k]["dv"] for k in ("m", "ma", "meq", "mne", "msel")) or c["mt"] != c["s"]["t"]
         (solo if deviating else clean).append(c)
     positive = lambda c: [x for x in contexts_of(c) if x not in ("sa_ne", "casedup")]
 
     def one_context(c, cx):
-        rc, mod, err = runner.compile(decl(cx, c) + "\n")
+        rc, mod, err = runner.compile(prelude([c]) + decl(cx, c) + "\n")
         judge(ctx, c, cx, observe(cx, c, rc, mod, err), tag)
 
     def unit(cs):
-        return "\n".join(decl(cx, c) for c in cs for cx in positive(c)) + "\n"
+        return prelude(cs) + "\n".join(decl(cx, c) for c in cs for cx in positive(c)) + "\n"
 
     def do_batch(cs):
         rc, mod, err = runner.compile(unit(cs), trace=True)
@@ -409,14 +504,15 @@ def run_undefined(ctx, runner, cases, tag):
     und = [c for c in cases if c["s"]["st"] == "ub"]
 
     def one(c):
-        src = "%s v%d = %s;\n" % (c["T"], c["i"], c["E"])
+        src = prelude([c]) + (decl("addr", c) if c["f"] == "addr" else "%s v%d = %s;" % (c["T"], c["i"], c["E"])) + "\n"
         rc, mod, err = runner.compile(src)
         ctx.count("%s|nocrash|%s" % (tag, c["E"]), nontrivial=True)
         if rc >= 0:
             return
-        dv = sorted(set(c["ma"]["dv"]))
-        case = {"source": src, "rc": rc, "model": c["ma"]["st"], "deviations": dv}
-        if c["ma"]["st"] == "trap" and dv:
+        mm = c["m"] if c["f"] == "addr" else c["ma"]
+        dv = sorted(set(mm["dv"]))
+        case = {"source": src, "rc": rc, "model": mm["st"], "deviations": dv}
+        if mm["st"] == "trap" and dv:
             for d in dv:
                 ctx.violation("fold:dev=%s" % d, "cproc-qbe dies with signal %d folding `%s`" % (-rc, c["E"]), case)
         else:
@@ -437,7 +533,12 @@ def run_runtime(ctx, objdir, cases, tag, per=150):
                  "unsigned long long dbits(double d) { union { double d; unsigned long long u; } x; x.d = d; return x.u; }",
                  "unsigned long long fbits(float f) { union { float f; unsigned u; } x; x.f = f; return x.u; }"]
         calls = []
+        lines.append(prelude(cs))
         for c in cs:
+            if c["f"] == "addr":
+                lines.append("long r%d(void) { return (char *)%s - (char *)arr_%s; }" % (c["i"], c["E"], c["et"]))
+                calls.append('\tprintf("%%d %%llx\\n", %d, (unsigned long long)r%d());' % (c["i"], c["i"]))
+                continue
             ps = []
             body = render(c["e"], ps)
             plist = ", ".join("%s p%d" % (CT[p["t"]], k) for k, p in enumerate(ps)) or "void"
@@ -492,6 +593,8 @@ def run_runtime(ctx, objdir, cases, tag, per=150):
     for cs, got in done:
         for c in cs:
             s = c["s"]
+            if c["f"] == "addr":
+                s = dict(s, t="long", z=8)
             exp = int.from_bytes(bytes(image(s)), "little")
             if s["t"] not in ("float", "double"):
                 exp = u64(s["v"])           # (unsigned long long) of the typed result
@@ -510,8 +613,9 @@ def run_runtime(ctx, objdir, cases, tag, per=150):
 # ---------------------------------------------------------------------------------------------
 # audit of the spec by gcc and clang
 def audit(ctx, cases, charsigned):
-    ok = [c for c in cases if c["s"]["st"] == "ok"]
+    ok = [c for c in cases if c["s"]["st"] == "ok" and c["f"] != "addr"]
     lines, owner = [], []
+    pre = prelude(ok).replace("\n", " ")       # one line, so that line numbers map to assertions
     for c in ok:
         lines.append("_Static_assert((%s) == %s, \"v\");" % (c["E"], c["V"]))
         owner.append((c, "value"))
@@ -519,6 +623,8 @@ def audit(ctx, cases, charsigned):
         owner.append((c, "type"))
     lines.append("_Static_assert((1 + 2) == 4, \"canary\");")      # must be reported: the audit itself is alive
     src = ctx.path("audit_%d.c" % (1 if charsigned else 0))
+    lines = [pre] + lines
+    owner = [None] + owner
     with open(src, "w") as f:
         f.write("\n".join(lines) + "\n")
     cmds = {"gcc": ["gcc", "-std=c11", "-fsyntax-only", "-w", "-fmax-errors=0", "-fsigned-char" if charsigned else "-funsigned-char", src],
@@ -535,7 +641,7 @@ def audit(ctx, cases, charsigned):
             if not m:
                 continue
             (failed if "static assertion failed" in m.group(2) or "static_assert failed" in m.group(2) else other).add(int(m.group(1)))
-        if len(owner) + 1 not in failed:
+        if len(owner) + 1 not in failed or 1 in failed or 1 in other:
             raise vlib.MachineryError("audit: %s did not report the canary assertion (rc=%s): %s" % (name, p.returncode, p.stdout[-500:]))
         failed.discard(len(owner) + 1)
         for ln in sorted(failed):
@@ -691,7 +797,7 @@ def flow_a(ctx, objdir, tracedir, cfg, charsigned, targets, runtime=True):
         with Timer(ctx, "flowA_runtime"):
             run_runtime(ctx, objdir, cases, "x86_64-sysv")
     for c in cases[len(cases) // 3:len(cases) // 3 + 2]:
-        if c["s"]["st"] == "ok":
+        if c["s"]["st"] == "ok" and c["f"] != "addr":
             ctx.sample({"E": c["E"], "type": c["T"], "value": c["V"], "contexts": [decl(x, c) for x in contexts_of(c)][:4]})
     return traces
 
@@ -714,8 +820,10 @@ def run(ctx):
                        "scaled cases); flow A: boundary-value cases at real widths (families binsame/binmix/fbin/un/cast/cond/unev/nest) x "
                        "12 contexts + run-time execution; one evaluation = one (target, context, expression) observation; non-trivial = "
                        "the expression has at least one operator; flow B: distinct H2 fold events judged by Trace_Fold")
-    with Timer(ctx, "model_checking"):
-        model_checking(ctx)
+    parts = set(os.environ.get("VERIF_C04_PARTS", "mc,flowa,flowb").split(","))       # development knob
+    if "mc" in parts:
+        with Timer(ctx, "model_checking"):
+            model_checking(ctx)
     built = vlib.build("hooks")
     # private copy: the shared build cache evicts an objdir as soon as somebody edits /repo
     objdir = ctx.path("obj")
